@@ -198,6 +198,11 @@ func FuzzNode(seed int64, steps int, idMul uint64) *Cluster {
 		switch r := rng.Intn(100); {
 		case r < 45: // a message
 			ty := pb.MessageType(rng.Intn(24))
+			if rng.Intn(2) == 0 { // half of the messages: the types that carry the replication and election logic
+				ty = []pb.MessageType{pb.MsgApp, pb.MsgApp, pb.MsgApp, pb.MsgAppResp, pb.MsgAppResp, pb.MsgSnap, pb.MsgSnap,
+					pb.MsgHeartbeat, pb.MsgHeartbeatResp, pb.MsgHeartbeatResp, pb.MsgVote, pb.MsgVoteResp, pb.MsgPreVote,
+					pb.MsgPreVoteResp, pb.MsgProp, pb.MsgReadIndex}[rng.Intn(16)]
+			}
 			from := ids[rng.Intn(5)]
 			for from == me && rng.Intn(30) != 0 {
 				from = ids[rng.Intn(5)]
@@ -245,13 +250,23 @@ func FuzzNode(seed int64, steps int, idMul uint64) *Cluster {
 			case pb.MsgSnap:
 				si := pickIdx()
 				scs := cs
+				if c0 := stt.GetCommit(); rng.Intn(3) == 0 && llast > c0+1 {
+					// aimed: a snapshot that lands inside the uncommitted tail with a term the log does not have there
+					// (the tail is a stale suffix that the snapshot must replace, not keep)
+					si = c0 + 1 + uint64(rng.Int63n(int64(llast-c0-1)))
+					m.Term = new(max(stt.GetTerm(), 1))
+				}
 				if rng.Intn(3) == 0 {
 					scs = &pb.ConfState{Voters: []uint64{ids[rng.Intn(5)], ids[rng.Intn(5)]}}
 					if scs.Voters[0] == scs.Voters[1] {
 						scs.Voters = scs.Voters[:1]
 					}
 				}
-				m.Snapshot = &pb.Snapshot{Metadata: &pb.SnapshotMetadata{Index: new(si), Term: new(termAt(si)), ConfState: scs}}
+				st := termAt(si)
+				if rng.Intn(3) == 0 {
+					st++ // not the term the log holds at si
+				}
+				m.Snapshot = &pb.Snapshot{Metadata: &pb.SnapshotMetadata{Index: new(si), Term: new(st), ConfState: scs}}
 				if m.GetTerm() == 0 {
 					m.Term = new(stt.GetTerm())
 				}
